@@ -119,9 +119,43 @@ def sort_over_sort_case(rng):
             "final": {"kind": "sort", "node": ["sort", ["leaf", "__T__"], terms, None]}, "directed": "sort_over_sort"}
 
 
+def hidden_collision_join_case(rng):
+    """Directed: the target has projected away a column h that the fixed operand of the join
+    exposes (h is therefore not a common column); the join is requested through
+    Join.partial(fixed, is_lhs) with the fixed operand in the engine upstream of a transfer, so
+    backtracking would have to carry the join past the projection that hides h."""
+    e1, e2 = rng.sample(ENG, 2)
+    if rng.random() < 0.7:
+        e1, e2 = "sql", rng.choice(["it", "it2"])  # joins are executable in the SQL engine only
+    g = gen.Gen(rng, gen.Cfg(engines=ENG, special_leaves=False, raw_leaves=False, max_rows_choices=(2, 3, 5), nonkeys=False, leaf_cols="abcdxy"))
+    cols = sorted(rng.sample("abcd", 3))
+    h = rng.choice(cols)
+    if rng.random() < 0.6:
+        # a non-key column: it can never be one of the join's equality columns, so after a wrong move
+        # its values would silently come from the wrong operand
+        h = rng.choice("xy")
+        cols = sorted(cols[:2] + [h])
+    state = g.leaf(e1, want_cols=cols, allow_special=False)
+    cols = sorted(state[1])
+    if rng.random() < 0.3:
+        state = g.unary(state, "sel") or state
+    state = (["xfer", state[0], e2], state[1], e2)
+    keep = [c for c in cols if c != h]
+    state = (["proj", state[0], keep, None], frozenset(keep), e2)
+    if rng.random() < 0.3:
+        state = g.unary(state, rng.choice(["sel", "dedup"])) or state
+    fcols = sorted({h} | set(rng.sample(keep, rng.randint(0, len(keep)))))
+    fprog, fc, _ = g.leaf(e1, want_cols=fcols, allow_special=False)
+    prog, pc, eng = state
+    return {"leaves": g.leaves, "prog": prog, "cols": sorted(pc), "engine": eng, "directed": "hidden_collision_join",
+            "final": {"kind": "join", "fixed": fprog, "pred": None, "fixed_engine": e1, "is_lhs": rng.random() < 0.5}}
+
+
 def gen_case(rng, tier, custom_final=True):
     if rng.random() < 0.05:
         return sort_over_sort_case(rng)
+    if rng.random() < 0.04:
+        return hidden_collision_join_case(rng)
     cfg = gen.Cfg(
         engines=ENG,
         ops=("calc", "proj", "sel", "dedup", "sort", "slice", "chain", "join", "mat", "cap", "rev", "mark"),
@@ -176,14 +210,18 @@ def apply_final(case, base_rel, b, engines, opt):
         p = b.plib(f["pred"]) if f["pred"] is not None else None
         # public route only: Relation.join(rhs, predicate, backtrack=, transfer=); the preferred
         # engine of a join is always the fixed operand's engine
+        if opt is None and base_rel.engine is not fixed.engine:
+            # the reference "applied at the root": bring the target into the fixed operand's engine
+            # with an explicit transfer and join there - no backtracking is involved at all
+            base_rel = base_rel.transferred_to(fixed.engine)
         if f.get("is_lhs"):
             # the other public route: Join.partial(fixed, is_lhs=True).apply(target, ...)
             op = R.Join(p if p is not None else R.Predicate.literal(True)).partial(fixed, is_lhs=True)
             if opt is None:
-                return op.apply(base_rel)
+                return op.apply(base_rel, backtrack=False)
             return op.apply(base_rel, backtrack=opt["bt"], transfer=opt["tr"])
         if opt is None:
-            return base_rel.join(fixed, p)
+            return base_rel.join(fixed, p, backtrack=False)
         return base_rel.join(fixed, p, backtrack=opt["bt"], transfer=opt["tr"])
     node = f["node"]
     k = f["kind"]
